@@ -44,6 +44,13 @@ Three families of cases (field 'fam'):
          offers nothing any more -- an old quirk the statement does not speak about: only "nothing appears" is
          demanded then).
 
+ empty   (c,d) empty SASL responses: every mechanism x {no initial response, "=" as initial response, an empty line
+         as challenge response, "=" as challenge response} (LOGIN: at the user-name or the password step), followed
+         by RSET / NOOP / MAIL sent by a client that trusts the protocol (one line, one reply).  Oracle: the number
+         of 334 challenges never exceeds what the mechanism needs given the initial response, every follow-up
+         command gets its own 250 and its own callback, the handler (if asked) is shown exactly the supplied
+         strings (empty where empty was supplied), authenticated only after the handler accepted.
+
 Audit additions (round 5): the STARTTLS line + payload cut into segments at generated offsets (inside the
 verb, between CR and LF, every byte), the whole session prefix + STARTTLS + payload in ONE segment (also behind
 the end of a message body), other spellings of the STARTTLS line; mechanisms XOAUTH2 and EXTERNAL, a server
@@ -139,7 +146,10 @@ REQUIRED_HITS = ['tls-reply-count-compared', 'tls-first-reply-checked', 'encrypt
                  'offer-history-ehlo-checked', 'offer-history-ehlo-after-helo-over-tls',
                  'starttls-refused-in-history-checked', 'starttls-probe-after-helo-over-tls',
                  'immediate-offer-history-checked', 'clear-offer-history-checked', 'clear-offer-history-after-helo',
-                 'handshake-callbacks-in-history-counted']
+                 'handshake-callbacks-in-history-counted',
+                 # empty SASL responses (seed C08g)
+                 'auth-equals-initial-response-driven', 'auth-empty-exchange-challenge-count-checked',
+                 'auth-empty-exchange-followups-checked', 'auth-empty-credentials-compared']
 SHARDS = {'quick': 8, 'thorough': 16}
 BUDGET = {'quick': 45, 'thorough': 700}
 EXHAUSTIVE = {'quick': False, 'thorough': False}
@@ -165,6 +175,7 @@ M_AUTH_IN_TXN = 'auth/accepted-inside-transaction'
 M_AUTH_EARLY = 'auth/authenticated-without-235'
 M_AUTH_CREDS = 'auth/credentials-altered'
 M_AUTH_RETRY = 'auth/retry-after-failure-refused'
+M_AUTH_EMPTY = 'auth/empty-response-mishandled'               # + '/<variant>'
 M_CLI_BUF = 'client/recv-buffer-survives-starttls'
 M_CLI_EXT = 'client/pre-tls-extensions-used-after-starttls'
 M_CLI_CREDS = 'client/auth-credentials-altered'
@@ -1041,6 +1052,30 @@ def offer_cases(tier, rr):
         yield case(mode, [rr.choice(pool) for _ in range(rr.randrange(3, 6))], rr.choice(['server', 'server', 'edge']))
 
 
+# ---------------------------------------------------------------- workload: empty SASL responses
+
+EMPTY_VARIANTS = ['no-initial', 'initial-equals', 'empty-line', 'equals-response']
+SASL_STEPS = {'PLAIN': 1, 'LOGIN': 2, 'CRAM-MD5': 1, 'XOAUTH2': 1, 'EXTERNAL': 1}     # responses the mechanism needs
+FOLLOWUPS = [[b'RSET', b'NOOP', b'MAIL FROM:<after@x>'], [b'NOOP', b'MAIL FROM:<after@x>', b'RSET'],
+             [b'MAIL FROM:<after@x>', b'RSET', b'NOOP'], [b'RSET'], [b'NOOP', b'NOOP']]
+
+
+def empty_cases(rnd):
+    n = 0
+    for channel in ('clear', 'starttls', 'immediate', 'clear-notls'):
+        for mech in MECHS:
+            for variant in EMPTY_VARIANTS:
+                for pos in ((1, 2) if mech == 'LOGIN' and variant in ('empty-line', 'equals-response') else (1,)):
+                    for target in ('server', 'edge'):
+                        for verdict in ('235', '535'):
+                            n += 1
+                            if channel == 'clear-notls' and n % 3:
+                                continue
+                            yield {'fam': 'empty', 'mech': mech, 'variant': variant, 'pos': pos, 'channel': channel,
+                                   'target': target, 'verdict': verdict, 'follow': n % len(FOLLOWUPS),
+                                   'cred': gen_cred(rnd, rnd.choice(['ascii', 'bmp', 'mixed', 'space']))}
+
+
 # ---------------------------------------------------------------- generator
 
 def gen_cases(tier, seed, shard, nshards):
@@ -1055,6 +1090,9 @@ def gen_cases(tier, seed, shard, nshards):
             c = random_auth(rr)
         cases.append(c)
     cases.extend(offer_cases(tier, random.Random('c08-offer-%d' % seed)))
+    re_ = random.Random('c08-empty-%d' % seed)
+    for _ in range(1 if tier == 'quick' else 4):
+        cases.extend(empty_cases(re_))
     for n, c in enumerate(cases):
         if n % nshards == shard:
             c['rs'] = (seed * 1000003 + n) & 0x7fffffff
@@ -2385,6 +2423,181 @@ def run_offer_case(case, R):
         R.sample({'case': case, 'ehlo_offers': ehlos, 'starttls_probes': [[i, r] for i, r, _, _ in starttls_probes]})
 
 
+# ---------------------------------------------------------------- run: empty SASL responses
+
+def run_empty_case(case, R):
+    mech, variant, pos, channel, target, verdict = (case[k] for k in ('mech', 'variant', 'pos', 'channel', 'target',
+                                                                      'verdict'))
+    cred = case['cred']
+    if mech == 'XOAUTH2':
+        cred = dict(cred, **dict((k, cred[k].replace('\x01', '?').replace('\n', '?')) for k in ('cid', 'secret', 'zid')))
+    follow = FOLLOWUPS[case['follow']]
+    key = ('empty', mech, variant, pos, channel, target, verdict, case['follow'])
+    R.observe('empty-case', key)
+    R.nontrivial(key)
+    encrypted = not is_clear(channel)
+    # ---- what the client supplies: the normal responses of the mechanism, with one of them made empty
+    g1, normal = auth_script(mech, 'challenge', cred)                 # (b'AUTH <MECH>', [responses...])
+    empty = {'no-initial': None, 'initial-equals': b'=', 'empty-line': b'', 'equals-response': b'='}[variant]
+    responses = list(normal)
+    want_cid, want_secret = cred['cid'], cred['secret']
+    if empty is not None:
+        responses[pos - 1] = empty
+        if mech == 'LOGIN' and pos == 1:
+            want_cid = ''
+        elif mech == 'LOGIN':
+            want_secret = ''
+    line = g1
+    initial = 0
+    if variant == 'initial-equals':
+        line, responses, initial = g1 + b' =', responses[1:], 1
+    S = ServerSession({'immediate': 'immediate', 'clear-notls': 'notls'}.get(channel, 'starttls'), AUTH_MECHS, target,
+                      verdicts=[verdict, verdict], credcheck=CredCheck(want_cid, want_secret))
+    w = S.w
+    R.eval()
+
+    def abort(why):
+        try:
+            S.finish()
+        except Stall:
+            pass
+        R.inconclusive('empty set-up: ' + why)
+
+    if channel == 'immediate' and not w.handshake():
+        return abort('immediate handshake failed')
+    if code(w.reply()) != '220':
+        return abort('no banner')
+    if channel == 'starttls':
+        if code(w.cmd(b'EHLO pre.test')) != '250' or code(w.cmd(b'STARTTLS')) != '220' or not w.handshake():
+            return abort('STARTTLS set-up failed')
+    if code(w.cmd(b'EHLO empty.test')) != '250':
+        return abort('EHLO refused')
+    n_trace0 = len(S.trace)
+    # ---- a client that trusts the protocol: one line, one reply; a response only to a challenge it expects
+    steps = []
+    r = w.cmd(line)
+    steps.append([line, r])
+    n334 = 1 if code(r) == '334' else 0
+    pending = list(responses)
+    while code(r) == '334' and pending:
+        resp = pending.pop(0)
+        if callable(resp):
+            try:
+                resp = resp(base64.b64decode(r[1][0]))
+            except Exception:
+                resp = resp(b'')
+        r = w.cmd(resp)
+        steps.append([resp, r])
+        if code(r) == '334':
+            n334 += 1
+    final = r
+    unexpected_challenge = code(final) == '334'          # the client has nothing more to say, yet is challenged
+    fol = []
+    for c in follow:
+        r = w.cmd(c)
+        fol.append([c, r])
+        if r is None:
+            break
+    if target == 'server':
+        authed_after = bool(S.srv.authed)
+    else:
+        authed_after = S.edge_session().auth if S.edge_session() is not None else None
+    quit_ = w.cmd(b'QUIT') if (fol and fol[-1][1] is not None) else None
+    end = S.finish()
+    calls = [e for e in S.trace if e['cb'] == 'AUTH']
+    later = [sig(e) for e in S.trace[n_trace0:] if e['cb'] in ('RSET', 'NOOP', 'MAIL')]
+    wit = {'case': case, 'auth_line': line, 'exchange': steps, 'followups': fol, 'quit': quit_, 'auth_callbacks': calls,
+           'authenticated_after': authed_after, 'callbacks_after_ehlo': [sig(e) for e in S.trace[n_trace0:]][:20],
+           'challenges_seen': n334, 'handle_end': end,
+           'supplied': {'cid': want_cid, 'secret': want_secret, 'responses': [x if not callable(x) else '<cram>' for x in
+                                                                             ([line] + responses)]}}
+    desc = '%s %s%s on %s target=%s verdict=%s, then %s' % (mech, variant, ' (step %d)' % pos if mech == 'LOGIN' else '',
+                                                            channel, target, verdict,
+                                                            ' / '.join(c.decode() for c in follow))
+    P = {}
+
+    def problem(mechanism, what):
+        P.setdefault(mechanism, []).append(what)
+
+    m_empty = M_AUTH_EMPTY + '/' + variant
+    refused_clear = not encrypted and mech in PLAINTEXT_MECHS
+    if variant == 'initial-equals':
+        R.hit('auth-equals-initial-response-driven')
+    # ---- number of challenges: at most what the mechanism still needs
+    R.hit('auth-empty-exchange-challenge-count-checked')
+    allowed = 0 if refused_clear else SASL_STEPS[mech] - initial
+    if n334 > allowed or unexpected_challenge:
+        problem(M_AUTH_CLEAR if refused_clear else m_empty, '%d challenge(s) (334) sent, the mechanism needs %d response(s) and the client supplied %d '
+                        'with the AUTH line%s' % (n334, SASL_STEPS[mech], initial,
+                                                  '; the last one came when the exchange was complete' if
+                                                  unexpected_challenge else ''))
+    # ---- the commands after the exchange get their own replies and callbacks
+    R.hit('auth-empty-exchange-followups-checked')
+    in_txn = False
+    for c, r in fol:
+        ok = code(r) == '250'
+        if c.startswith(b'MAIL') and in_txn:
+            ok = is_err(r)
+        if not ok:
+            problem(m_empty, '%s after the exchange was answered %r' % (c.decode(), r))
+            break
+        if c.startswith(b'MAIL'):
+            in_txn = True
+        if c == b'RSET':
+            in_txn = False
+    want_later = [('MAIL:after@x' if c.startswith(b'MAIL') else c.decode()) for c in follow]
+    if target == 'server' and later != want_later:
+        problem(m_empty, 'callbacks after the exchange were %s, the commands sent were %s' % (later, want_later))
+    if target == 'edge' and [x for x in later if x.startswith('MAIL')] != [x for x in want_later if x.startswith('MAIL')]:
+        problem(m_empty, 'MAIL callbacks after the exchange were %s, the commands sent were %s' % (later, want_later))
+    # ---- what the handler was shown
+    if refused_clear and calls:
+        problem(M_AUTH_CLEAR, 'plain-text mechanism on a clear session: the handler was asked')
+    for e in calls:
+        c = e.get('creds', {})
+        if 'api_error' in c:
+            return R.inconclusive('pysasl API: ' + c['api_error'][:80])
+        R.hit('auth-empty-credentials-compared')
+        R.observe('empty-credentials-shown', (mech, variant, pos))
+        if mech == 'LOGIN':
+            if c.get('authcid') != want_cid:
+                problem(M_AUTH_CREDS if want_cid else m_empty,
+                        'handler shown authcid %r, the client supplied %r' % (c.get('authcid'), want_cid))
+            elif not c.get('verify_supplied') or c.get('verify_wrong_secret'):
+                problem(M_AUTH_CREDS if want_secret else m_empty,
+                        'handler shown a secret that is not the supplied %r' % (want_secret,))
+        elif mech == 'EXTERNAL':
+            want = '' if empty is not None else cred['cid']
+            if c.get('authzid') != want or c.get('authcid') != '':
+                problem(M_AUTH_CREDS if want else m_empty,
+                        'handler shown authzid %r, the client supplied %r' % (c.get('authzid'), want))
+        elif empty is not None:
+            problem(m_empty, 'handler asked although the only response of the mechanism was empty: %r' % (c,))
+        elif mech == 'PLAIN' and (c.get('authcid') != cred['cid'] or not c.get('verify_supplied')):
+            problem(M_AUTH_CREDS, 'handler shown %r, the client supplied %r' % (c, cred['cid']))
+        elif mech == 'XOAUTH2' and (c.get('authzid') != cred['cid'] or c.get('token') != cred['secret']):
+            problem(M_AUTH_CREDS, 'handler shown %r, the client supplied %r' % (c, cred['cid']))
+        elif mech == 'CRAM-MD5' and (c.get('authcid') != cred['cid'] or not c.get('verify_secret_only')):
+            problem(M_AUTH_CREDS, 'handler shown %r, the client supplied %r' % (c, cred['cid']))
+    # ---- authenticated only after the handler accepted, and as the identity it was shown
+    accepted = [e for e in calls if e.get('verdict') == '235']
+    if authed_after and not accepted:
+        problem(M_AUTH_EARLY, 'session authenticated (%r) although the handler never accepted' % (authed_after,))
+    if any(code(st[1]) == '235' for st in steps + fol) and not accepted:
+        problem(M_AUTH_EARLY, '235 sent although the handler never accepted')
+    if target == 'edge' and accepted and authed_after:
+        shown = accepted[-1].get('creds', {})
+        if tuple(authed_after) != (shown.get('authcid'), shown.get('authzid')):
+            problem(M_AUTH_CREDS, 'session.auth %r is not what the handler accepted' % (authed_after,))
+    # a shifted exchange explains wrong credentials / a never-asked handler: report the root cause only
+    if m_empty in P:
+        P = {m_empty: [w_ for ws in ([P[m_empty]] + [v for k, v in P.items() if k != m_empty]) for w_ in ws]}
+    for mechanism, whats in sorted(P.items()):
+        R.violation(mechanism, desc + ': ' + '; '.join(whats)[:500], wit)
+    if not P and case.get('rs', 0) % 19 == 0:
+        R.sample({'case': case, 'exchange': steps, 'followups': fol, 'auth_callbacks': calls})
+
+
 # ---------------------------------------------------------------- dispatch
 
 def run_case(case, R):
@@ -2397,6 +2610,8 @@ def run_case(case, R):
             run_relay_case(case, R)
         elif case['fam'] == 'offer':
             run_offer_case(case, R)
+        elif case['fam'] == 'empty':
+            run_empty_case(case, R)
         else:
             run_client_case(case, R)
     except Stall as e:
